@@ -412,6 +412,15 @@ class Hist(Scenario):
 
     def op_amend(self):
         self.report_human_edits()
+        if self.rng.random() < 0.15 and self.ncommits() >= 1:
+            # an amend that changes nothing, within the same second: it reproduces the same commit id while work may be pending
+            # (repaired finding D90)
+            ct = self.w.ogit("log", "-1", "--format=%ct").strip()
+            p = self.w.git("commit", "-q", "--amend", "--no-edit", tick=False, env={"GIT_COMMITTER_DATE": "@%s +0000" % ct})
+            self.log.append(["git", "commit", "-q", "--amend", "--no-edit", "(same second)", "rc=%d" % p.rc])
+            self.stats["git_cmds"] += 1
+            self.ops.append("amend:noop-same-id")
+            return
         self.g("add", "-A")
         self.g("commit", "-q", "--amend", "--allow-empty", "-m", "amended")
         self.ops.append("amend")
@@ -1055,7 +1064,8 @@ class Hist(Scenario):
             self.do_edit(author="human", f=f, kinds=["ins", "del"])
             self.commit_all("between-stash")
         how = how or rng.choice(["pop", "pop", "apply"])
-        p = self.g("stash", how, "-q")
+        # the entry is named in one of git's spellings: none (the newest), stash@{0}, or the bare index (repaired finding D89)
+        p = self.g("stash", how, "-q", *rng.choice([[], [], ["stash@{0}"], ["0"]]))
         self.ops.append("stash:" + how)
         if self.unmerged():
             self.resolve_conflicts(how=self.rng.choice(["ours", "theirs", "both"]))
